@@ -36,9 +36,9 @@ ENTRIES = {
     "C11": {
         "text": "Decodes sealed range-coder output followed by hostile suffixes (all-ones, zeros, random, a second sealed message, pre-filled sink) "
                 "for hundreds of thousands of steered short messages whose final interval ends just above a word boundary, and evaluates an analytic "
-                "side-oracle from the encoder's final public state that says whether any suffix could break the message. The documented two-word seal is "
-                "insufficient for State > 2 Words (known finding K1, matched by its root-cause signature); any other failure, in particular any with State = 2 Words, is a VIOLATION.",
-        "note": TB + "; the known finding is matched only on signature C11/seal-2w-wide-state (State > 2 Words, seal [w,0], side-oracle unpinned)",
+                "side-oracle from the encoder's final public state that says whether any suffix could break the message. Encoders over pre-filled sinks are also inspected before "
+                "their first symbol. (The check found that the documented two-word seal was insufficient for State > 2 Words; repaired by fix commit 4aeff50, recorded as fixed.)",
+        "note": TB + "; a failure of the old shape (State > 2 Words, seal [w,0], side-oracle unpinned) is still classified separately (C11/seal-2w-wide-state) but, being fixed, is a VIOLATION like any other",
         "technique": "runtime monitoring: suffix-injection round trips + analytic interval-containment oracle on observed encoder state, steered to the seal edge",
     },
     "C04": {
